@@ -16,7 +16,7 @@ package texttable
 //@ spec propOf(c *tabular.Cell, k Iface) Iface = lookup(heap[tabular.valueProperty.chain], heap[tabular.valueProperty.key], heap[tabular.valueProperty.val], c.properties, k)
 
 //@ func CellPropertyExtractDimensions
-//@   tags C03,C04,C09
+//@   tags C03,C04,C09,C14
 //@   requires cell != nil && chainOK(heap[tabular.valueProperty.chain], heap[tabular.valueProperty.key], heap[tabular.valueProperty.val], cell.properties)
 //@   assigns nothing
 //@   ensures [stored-dimensions-or-zero] result.cellWidth == cellW(cell) && result.height == (dyn(propOf(cell, kDims())) == type[dimensions] ? propOf(cell, kDims()).(dimensions).height : 0) @C03
@@ -25,7 +25,7 @@ package texttable
 //@ spec cellW(c *tabular.Cell) int = dyn(propOf(c, kDims())) == type[dimensions] ? propOf(c, kDims()).(dimensions).cellWidth : 0
 
 //@ func CellPropertyExtractLinesWidths
-//@   tags C03,C04,C09
+//@   tags C03,C04,C09,C14
 //@   requires cell != nil && chainOK(heap[tabular.valueProperty.chain], heap[tabular.valueProperty.key], heap[tabular.valueProperty.val], cell.properties)
 //@   assigns nothing
 //@   ensures [stored-lines-or-nil] dyn(propOf(cell, kLines())) == type[[]decoration.WidthString] ? result === propOf(cell, kLines()).([]decoration.WidthString) : len(result) == 0 @C04
@@ -63,7 +63,7 @@ package texttable
 //@ ghost var ttLineWit Int
 
 //@ func (*TextTable).RowToLinesOfWidthStrings
-//@   tags C04,C03,C09
+//@   tags C04,C03,C09,C14
 //@   requires 0 <= columnCount && columnCount <= 1048576 && cellsChains(cells)
 //@   assigns new(decoration.WidthString), new([]decoration.WidthString), ghost ttLineWit
 //@   ensures [one-line-per-text-line-of-the-tallest-cell] len(result) == 1 || (0 <= ttLineWit && ttLineWit < len(cells) && ttLineWit < columnCount && len(result) == lwLen(&cells[ttLineWit])) @C03
